@@ -345,6 +345,21 @@ class Builder:
             eds = []
             for e in s["datas"]:
                 params = NamedItemList([self.param(p) for p in e["params"]])
+                if s.get("xml"):
+                    # the ENV-DATA element as ODX text (VALUE parameters referring to the DOPs built
+                    # above), read by odxtools' own parser
+                    from xml.etree import ElementTree
+                    px = "".join(
+                        f'<PARAM {XSI} xsi:type="VALUE"><SHORT-NAME>{q.short_name}</SHORT-NAME>'
+                        f'<DOP-REF ID-REF="{q.dop_ref.ref_id}"/></PARAM>' for q in params)
+                    sel = "<ALL-VALUE/>" if e.get("all") else "<DTC-VALUES>" + "".join(
+                        f"<DTC-VALUE>{c}</DTC-VALUE>" for c in e.get("dtcs", [])) + "</DTC-VALUES>"
+                    ed = EnvironmentData.from_et(ElementTree.fromstring(
+                        f'<ENV-DATA ID="{self.fresh("envdata")}"><SHORT-NAME>{e["name"]}</SHORT-NAME>'
+                        f'<PARAMS>{px}</PARAMS>{sel}</ENV-DATA>'), FRAGS)
+                    self.objs.append(ed)
+                    eds.append(ed)
+                    continue
                 ed = mk(EnvironmentData, odx_id=oid(self.fresh("envdata")), short_name=e["name"],
                         parameters=params, byte_size=None, all_value=e.get("all"),
                         dtc_values=list(e.get("dtcs", [])))
